@@ -258,4 +258,5 @@ def run(ctx):
                             okh = True
                 ctx.check(okh, "HASHORDER", "C15:HASHORDER:%s" % f.npath, "iteration over a randomly seeded hash collection is order-normalised (sorted) before use",
                           "`%s` iterates a randomly seeded hash collection and the order reaches the result unsorted: the same call renders differently from run to run" % c, config, ctx.where(f, b))
-        ctx.floor("HASHORDER.sites", k, 4 if "validator" in (fx.data.get("features") or []) else 0, config)
+        feats = set(fx.data.get("features") or [])
+        ctx.floor("HASHORDER.sites", k, (3 + (1 if "miette" in feats else 0)) if "validator" in feats else 0, config)
